@@ -225,6 +225,46 @@ def fifo_signal_crash(prog: dict, signal_at: int, pers: bool, crash_at: int, lat
         run.close()
 
 
+def fifo_cancel_crash(prog: dict, cancel_at: int, rel: int, late_expire: bool = False) -> dict:
+    """In-order run, a cancel request before delivery step `cancel_at`, process kill after the `rel`-th durable commit that
+    FOLLOWS the request (rel = 1.. walks through the CancelWorkflow handler's own commits: flag, fan-out transaction,
+    and on into the CancelStage handlers), restart + recovery, drain."""
+    run = Run(prog, "cancelcrash")
+    try:
+        run.start()
+        state = {"step": 0, "sent": False}
+
+        def body():
+            for _ in range(3000):
+                rows = run.rows()
+                vis = [r for r in rows if not r["locked"] and not r["delayed"] and r["att"] < r["max"]]
+                if vis:
+                    state["step"] += 1
+                if not state["sent"] and (state["step"] >= cancel_at or not rows):
+                    state["sent"] = True
+                    run.send_cancel()
+                    run.crash_at = {run.commit_no + rel}
+                    continue
+                r = run.step_fifo()
+                if r == "empty":
+                    break
+                if r == "locked":
+                    for row in run.rows():
+                        if row["locked"]:
+                            run.expire(row["qid"])
+
+        if run.run_protected(body):
+            if not late_expire:
+                for row in run.rows():
+                    if row["locked"]:
+                        run.expire(row["qid"])
+            run.sweep()
+            run.run_protected(body)
+        return run.as_trace({"kind": "cancel-crash", "cancel_at": cancel_at, "rel": rel, "late_expire": late_expire})
+    finally:
+        run.close()
+
+
 def poll_crash(prog: dict, times: int) -> dict:
     """In-order run; the first RunTask message is polled `times` times by a worker that is killed right after the
     poll commit (restart, lock lapse, sweep in between), then the run continues in order."""
@@ -399,6 +439,8 @@ def job(spec: dict[str, Any]) -> list[dict]:
     if kind == "signal-crash":
         return [fifo_signal_crash(prog, sa, spec.get("pers", True), c, spec.get("late_expire", False))
                 for (sa, c) in spec["cases"]]
+    if kind == "cancel-crash":
+        return [fifo_cancel_crash(prog, ca, rel, spec.get("late_expire", False)) for (ca, rel) in spec["cases"]]
     if kind == "redeliver":
         return [redeliver(prog, v, a, **spec.get("opts", {})) for (v, a) in spec["cases"]]
     raise ValueError(kind)
